@@ -67,12 +67,18 @@ impl ColumnBatchBuilder {
         let archetype = self.archetype.as_mut().unwrap();
         let state = archetype.get_state::<T>()?;
         let base = archetype.get_base::<T>(state);
+        let fill = self.fill.entry(TypeId::of::<T>()).or_insert(0);
+        // Resume after the components written through earlier writers
+        let start = *fill as usize;
         Some(BatchWriter {
-            fill: self.fill.entry(TypeId::of::<T>()).or_insert(0),
             storage: unsafe {
-                slice::from_raw_parts_mut(base.as_ptr().cast(), self.target_fill as usize)
-                    .iter_mut()
+                slice::from_raw_parts_mut(
+                    base.as_ptr().cast::<MaybeUninit<T>>().add(start),
+                    self.target_fill as usize - start,
+                )
+                .iter_mut()
             },
+            fill,
         })
     }
 
